@@ -11,6 +11,7 @@ let judge (_input : string) (impl : string) (_model : string) : verdict =
   else match String.split_on_char ':' impl with
     | "panic" :: _entry :: rest -> Violation (String.concat ":" rest, impl)
     | "slow" :: entry :: _ -> Violation ("slow:" ^ entry, impl)
+    | "alloc" :: entry :: _ -> Violation ("alloc:" ^ entry, impl)
     | "abort" :: _ -> Violation ("abort", impl)
     | _ -> Violation ("other", impl)
 
